@@ -87,6 +87,9 @@ structure Fields where
   style : Str := []
   /-- settings `attribute::k` columns (`Survey.attribute`), in column order -/
   attrib : List (Str × Str) := []
+  /-- settings `instance::k` columns (`Survey.instance`, a section like any other), in column order;
+      values after `insert_xpaths` -/
+  instAttrs : List (Str × Str) := []
   instanceXmlns : Str := []
   version : Str := []
   pfx : Str := []
@@ -146,10 +149,12 @@ def submissionNode (f : Fields) : List Node :=
   if f.submissionUrl.isEmpty && f.publicKey.isEmpty && f.autoSend.isEmpty && f.autoDelete.isEmpty then []
   else [pyNode "submission".toList (subAttrs f) []]
 
-/-- attributes of the primary instance root: `Survey.xml_instance` (717-740) applied to the
-    attribute-less element `Section.xml_instance` returns for a survey -/
+/-- attributes of the primary instance root: `Section.xml_instance` (section.py 110-123) creates the
+    element with the survey's own `instance::` attributes, `Survey.xml_instance` (717-740) then sets the
+    `attribute::` columns, `id`, `xmlns`, `version`, `odk:prefix`, `odk:delimiter` — *after* them, so that
+    no `instance::id` column can displace the form id -/
 def rootAttrs (f : Fields) : List (Str × Str) :=
-  let a := setAttrs [] f.attrib
+  let a := setAttrs (setAttrs [] f.instAttrs) f.attrib
   let a := setAttr a "id".toList f.idString
   let a := if f.instanceXmlns.isEmpty then a else setAttr a "xmlns".toList f.instanceXmlns
   let a := if f.version.isEmpty then a else setAttr a "version".toList f.version
@@ -291,11 +296,22 @@ def nameValid (scope : List Str) (name : Str) : Bool :=
 def pyDeclared (kv : Str × Str) : Option Str :=
   if startsWith kv.1 xmlnsColon then some (kv.1.drop 6) else none
 
-/-- a namespace declaration is accepted: non-empty value, prefix neither `xml` nor `xmlns` -/
+/-- `value in XML_RESERVED_NAMESPACES` -/
+def reservedNs (v : Str) : Bool := v == xmlNsUri || v == xmlnsNsUri
+
+/-- `name == "xmlns" or name.startswith("xmlns:")` -/
+def isNsDecl (k : Str) : Bool := k == "xmlns".toList || startsWith k xmlnsColon
+
+/-- a namespace declaration is accepted: non-empty value, prefix neither `xml` nor `xmlns`, and
+    (repair of F2b-reserved) the value is not one of the two reserved namespace names -/
 def pyDeclOk (kv : Str × Str) : Bool :=
-  match pyDeclared kv with
-  | some p => !kv.2.isEmpty && p != "xml".toList && p != "xmlns".toList
-  | none => true
+  (match pyDeclared kv with
+   | some p => !kv.2.isEmpty && p != "xml".toList && p != "xmlns".toList
+   | none => true) &&
+  !(isNsDecl kv.1 && reservedNs kv.2)
+
+/-- (repair of F3x) `kind == "element"`: the prefix is not `xmlns` -/
+def elemPrefixOk (t : Str) : Bool := !(partitionColon t == ("xmlns".toList, true))
 
 mutual
 /-- `validate_xml_document(element, declared)` does not raise -/
@@ -304,7 +320,7 @@ def validDoc (declared : List Str) : Node → Bool
   | .elem t a ks =>
     let scope := a.filterMap pyDeclared ++ declared
     a.all pyDeclOk && nameValid scope t &&
-    a.all (fun kv => nameValid scope kv.1 && kv.2.all isXmlChar) && validKids scope ks
+    a.all (fun kv => nameValid scope kv.1 && kv.2.all isXmlChar) && validKids scope ks && elemPrefixOk t
 def validKids (declared : List Str) : List Node → Bool
   | [] => true
   | k :: ks => validDoc declared k && validKids declared ks
